@@ -226,6 +226,34 @@ def run_tlc(module, cfg=None, env=None, workers=1, timeout=3600, simulate=None, 
         shutil.rmtree(meta, ignore_errors=True)
 
 
+def simulate_behaviours(module, constants, num, depth, seed, heap="2g", invariants=None, timeout=1800):
+    """spec -> code: `tlc -simulate file=...` writes one TLA+ file per random behaviour of spec/<module>.tla; returns (run record, list of
+    behaviours), a behaviour being the list of its states as dicts variable -> parsed value."""
+    d = tempfile.mkdtemp(prefix="tlcsim_")
+    try:
+        r = run_tlc(module, workers=1, constants=constants, simulate="file=%s/tr,num=%d" % (d, num), depth=depth, seed=seed, heap=heap,
+                    invariants=invariants, timeout=timeout)
+        out = []
+        for f in sorted(os.listdir(d)):
+            txt = open(os.path.join(d, f)).read()
+            states = []
+            for block in re.split(r"STATE_\d+ ==", txt)[1:]:
+                st = {}
+                block = block.split("\n\n")[0] if "\n\n\\*" in block else block
+                for part in re.split(r"^/\\ ", block, flags=re.M)[1:]:        # a value may run over several lines
+                    m = re.match(r"(\w+) = (.*)", part, re.S)
+                    if m:
+                        val_ = m.group(2)
+                        val_ = re.split(r"\n\s*\n|\n\\\*|\n=====", val_)[0]
+                        st[m.group(1)] = parse_tla(val_.strip())
+                states.append(st)
+            if states:
+                out.append(states)
+        return r, out
+    finally:
+        shutil.rmtree(d, ignore_errors=True)
+
+
 def tla_lit(v):
     if isinstance(v, bool):
         return "TRUE" if v else "FALSE"
